@@ -400,8 +400,17 @@ func (vs *ValueSet) FromSignature(values []reflect.Value) error {
 		values = []reflect.Value{structOut}
 	}
 
-	// Get our first result which should be our struct
+	// Get our first result which should be our struct. A function that
+	// takes or returns a pointer to the struct hands us the pointer, so
+	// unwrap it. A nil pointer is equivalent to zero values.
 	structVal := values[0]
+	for structVal.Kind() == reflect.Ptr {
+		if structVal.IsNil() {
+			structVal = reflect.New(vs.structType).Elem()
+			break
+		}
+		structVal = structVal.Elem()
+	}
 	for i, v := range vs.values {
 		vs.values[i].Value = structVal.Field(v.index)
 	}
